@@ -965,6 +965,65 @@ def parseProgramFuel (fuel : Nat) (toks : List Token) : Option (Program Name) :=
 on printer output) -/
 def parseProgram (toks : List Token) : Option (Program Name) := parseProgramFuel (toks.length + 1) toks
 
+-- ------------------------------------------------------------------ well-formedness (hypotheses of the round trip)
+mutual
+  /-- constructor tags fit the parser's `u64` -/
+  def dataOk : Data → Bool
+    | .constr tag fs => decide (tag < 2 ^ 64) && dataListOk fs
+    | .map es => dataPairsOk es
+    | .list xs => dataListOk xs
+    | .int _ => true
+    | .bytes _ => true
+  def dataListOk : List Data → Bool
+    | [] => true
+    | d :: ds => dataOk d && dataListOk ds
+  def dataPairsOk : List (Data × Data) → Bool
+    | [] => true
+    | (k, v) :: es => dataOk k && dataOk v && dataPairsOk es
+end
+
+mutual
+  /-- `constOk t c`: `c` is a well-formed constant of type `t` — no ml-result value (the printer
+  panics), list elements and pair components have the declared types (the printer omits the types of
+  nested constants, the parser reconstructs them from the outer type), data tags fit `u64`. -/
+  def constOk : Ty → Const → Bool
+    | .integer, .integer _ => true
+    | .bytestring, .bytestring _ => true
+    | .string, .string _ => true
+    | .unit, .unit => true
+    | .bool, .bool _ => true
+    | .data, .data d => dataOk d
+    | .g1, .g1 _ => true
+    | .g2, .g2 _ => true
+    | .list t, .list t' xs => decide (t = t') && constsOk t xs
+    | .pair a b, .pair a' b' x y => decide (a = a') && decide (b = b') && constOk a x && constOk b y
+    | _, _ => false
+  def constsOk : Ty → List Const → Bool
+    | _, [] => true
+    | t, c :: cs => constOk t c && constsOk t cs
+end
+
+mutual
+  /-- constants well-formed, `constr` tags fit `usize`, names are identifiers of the grammar -/
+  def termOk : Term Name → Bool
+    | .var n => isIdent n.text.toList
+    | .lam n b => isIdent n.text.toList && termOk b
+    | .app f a => termOk f && termOk a
+    | .delay t => termOk t
+    | .force t => termOk t
+    | .error => true
+    | .builtin _ => true
+    | .const c => constOk c.ty c
+    | .constr tag fs => decide (tag < 2 ^ 64) && termsOk fs
+    | .case s bs => termOk s && termsOk bs
+  def termsOk : List (Term Name) → Bool
+    | [] => true
+    | t :: ts => termOk t && termsOk ts
+end
+
+def programOk (p : Program Name) : Bool :=
+  decide (p.version.1 < 2 ^ 64) && decide (p.version.2.1 < 2 ^ 64) && decide (p.version.2.2 < 2 ^ 64) && termOk p.term
+
 -- ------------------------------------------------------------------ lexer
 def isWsChar (c : Char) : Bool := c == ' ' || c == '\n' || c == '\r' || c == '\t'
 def isWordChar (c : Char) : Bool := isIdentChar c || c == '+' || c == '.'
